@@ -154,6 +154,11 @@ func runOutputCase(a args, idx int, r *h.Rand) {
 	chain2.Name = "chain-allow"
 	chain2.AllowFailure = true
 	stages = append(stages, &scheduler.Stage{Name: "chain-allow", Task: chain2})
+	// an external command that writes to both streams concurrently: the captured stdout must still be exact,
+	// and the next command's .Output must contain every line of both streams
+	both := task.FromCommands("sh -c 'i=0; while [ $i -lt 400 ]; do echo o$i; echo e$i >&2; i=$((i+1)); done'", "printf '%s' '{{.Output}}' | wc -l")
+	both.Name = "both-streams"
+	stages = append(stages, &scheduler.Stage{Name: "both-streams", Task: both})
 	rnd2 := r.Perm(len(stages))
 	var shuffled []*scheduler.Stage
 	for _, i := range rnd2 {
@@ -210,6 +215,19 @@ func runOutputCase(a args, idx int, r *h.Rand) {
 	cst2, _ := g.Node("chain-allow")
 	if o := cst2.Task.Output(); o != "firstsecondsaw[second]" {
 		out.Viol("C11", "output-chaining/after-allowed-failure", fmt.Sprintf(".Output after a tolerated failing command gave %q, want %q", o, "firstsecondsaw[second]"), cas)
+	}
+	bst, _ := g.Node("both-streams")
+	wantBoth := ""
+	for i := 0; i < 400; i++ {
+		wantBoth += fmt.Sprintf("o%d\n", i)
+	}
+	if o := bst.Task.Output(); !strings.HasPrefix(o, wantBoth) || strings.TrimSpace(strings.TrimPrefix(o, wantBoth)) != "800" {
+		got := strings.TrimSpace(strings.TrimPrefix(o, wantBoth))
+		sig := "captured-output-differs/stdout-and-stderr-concurrently"
+		if strings.HasPrefix(o, wantBoth) {
+			sig = "output-chaining/stdout-and-stderr-concurrently"
+		}
+		out.Viol("C11", sig, fmt.Sprintf("command writing 400 lines to stdout and 400 to stderr: captured stdout exact=%v, next command saw %q lines in .Output (want 800)", strings.HasPrefix(o, wantBoth), got), cas)
 	}
 	out.Nontrivial("C11", fmt.Sprint(name, exportAs, len(want), ncmd, nvar, ncons, via))
 	out.Sample("C11", cas)
